@@ -625,7 +625,15 @@ func (r *lsmRun) program(p lsmProfile) {
 		did := false
 		switch {
 		case x < 55:
-			doPut()
+			if p.plain && !p.withReopn && rng.Intn(6) == 0 {
+				// a transactional write among the plain ones: live, deleted or already expired (never in programs that
+				// reopen: with a plain write stored, Open seeds the oracle from the sentinel version and the next commit
+				// kills the process - finding C37-F2, demonstrated in a child process by the txn family)
+				r.commitOne()
+				r.c.Count("plain_profile_txn_commit")
+			} else {
+				doPut()
+			}
 		case x < 67:
 			r.rotate()
 			did = true
